@@ -233,6 +233,28 @@ pub(crate) mod verif_block {
         let c = super::skip_container_loop(data, &mut pi, &mut pe, &mut l, &mut r, left, right);
         (c.map(|x| x.get()), (pi, pe, l, r))
     }
+    /// `skip_space` / `skip_space_peek` / `eat` on a byte slice, the cached whitespace bitmap observed after every
+    /// operation.  ops: `s` = skip_space, `p` = skip_space_peek, `1`..`9` = eat that many bytes (bounded by the
+    /// input); per operation: (byte returned, reader index, `nospace_bits`, `nospace_start`)
+    pub fn skip_space_trace(data: &[u8], ops: &[u8]) -> Vec<(Option<u8>, usize, u64, isize)> {
+        use crate::reader::Reader;
+        let mut p = super::Parser::new(crate::reader::Read::new(data, false));
+        let mut out = Vec::with_capacity(ops.len());
+        for op in ops {
+            let r = match *op {
+                b's' => p.skip_space(),
+                b'p' => p.skip_space_peek(),
+                d @ b'1'..=b'9' => {
+                    let n = ((d - b'0') as usize).min(p.read.remain());
+                    p.read.eat(n);
+                    None
+                }
+                _ => None,
+            };
+            out.push((r, p.read.index(), p.nospace_bits, p.nospace_start));
+        }
+        out
+    }
     /// `skip_string_unchecked` on the text after an opening quote: (bytes consumed up to and
     /// including the closing quote, status is `HasEscaped`); `None` = end of input
     pub fn skip_string(data: &[u8]) -> Option<(usize, bool)> {
